@@ -192,7 +192,14 @@ func corrSchemes(prop, outDir string, seed uint64, tier string) *report {
 					if s.name != "nthash" && string(p.salt) != refSalt(s.name, stream, false) {
 						rep.fail(map[string]interface{}{"scheme": s.name, "hash": h}, refSalt(s.name, stream, false), string(p.salt), "Params does not return the drawn salt")
 					}
+					saltBefore := append([]byte(nil), p.salt...)
 					key, kerr := s.key(pw, p)
+					// the parameters Params returned can be used again: a second derivation from the same values gives
+					// the same key, and the salt slice still holds what Params put there
+					if key2, kerr2 := s.key(pw, p); !bytes.Equal(key, key2) || (kerr == nil) != (kerr2 == nil) || !bytes.Equal(saltBefore, p.salt) {
+						rep.fail(map[string]interface{}{"scheme": s.name, "hash": h, "salt_from_Params": string(saltBefore)}, fmt.Sprintf("%x %v again, salt unchanged", key, kerr), fmt.Sprintf("%x %v, salt now %q", key2, kerr2, p.salt),
+							"Key(Params(h)) is not repeatable: the parameters returned by Params are changed by Key or give another key the second time")
+					}
 					if kerr != nil || !strings.HasSuffix(h, refSum(s.name, key)) {
 						rep.fail(map[string]interface{}{"scheme": s.name, "hash": h}, "re-derived and re-encoded digest reproduces the string", fmt.Sprint(kerr), "Key(Params(h)) does not reproduce the generated hash")
 					}
